@@ -586,6 +586,9 @@ func withTriviaKinds(rng *rand.Rand, src []byte, fam int, mode int) [][]byte {
 		prev := 0
 		inStr := false
 		for i, t := range lt {
+			if t.S < prev || t.E < t.S || t.E > len(src) {
+				return out // overlapping / out-of-range token spans: the oracle proper reports them
+			}
 			gap := src[prev:t.S]
 			// before 7.3 only `;` or a newline may follow the closing label, and a newline must follow that `;`
 			afterEnd := (i > 0 && lt[i-1].ID == token.T_END_HEREDOC && fam == 5) || (i > 1 && lt[i-2].ID == token.T_END_HEREDOC && lt[i-1].ID == token.ID(';'))
